@@ -360,6 +360,7 @@ pub fn walk(bytes: &[u8], password: &[u8], cfg: WalkCfg, inv_objects: Option<&[(
             .spawn_scoped(scope, || {
                 let mut w = W { res: WalkResult::default(), h: Hasher64::new(), announce, stop: false, cfg, password };
                 clear_last_panic();
+                crate::digest::LIGHT.with(|l| l.set(true));
                 seams::reset_decoded_thread();
                 let ctl = SimCtl::new(cfg.cached, cfg.cached);
                 ctl.event_budget.store(1_000_000 + 1000 * bytes.len() as u64, Ordering::Relaxed);
